@@ -52,6 +52,8 @@ pub struct ClusterWorld {
     pub out_of_scope: bool,
     /// cap on messages recorded per node (raised during fair completion)
     pub msg_cap: usize,
+    /// finalization events of each real node's pool
+    pub fins: Vec<Vec<alpenglow::consensus::verif::VerifFinalization>>,
 }
 
 #[derive(Clone, Debug)]
@@ -192,6 +194,7 @@ impl ClusterSys {
         w.cores[i].blockstore_event(BlockstoreEvent::Block { slot, block_info: BlockInfo::verif_new(blk_hash(b), blk_id(p)) });
         self.collect(w, i);
         let o = w.cores[i].pool.add_block(blk_id(b), blk_id(p));
+        w.fins[i].extend(o.fins);
         for e in o.events {
             w.cores[i].q.push_back(e);
         }
@@ -414,6 +417,7 @@ impl Sys for ClusterSys {
             blocks_known: BTreeMap::new(),
             out_of_scope: false,
             msg_cap: self.max_msgs,
+            fins: vec![Vec::new(); h],
         }
     }
 
@@ -445,6 +449,7 @@ impl Sys for ClusterSys {
                 w.byz_delivered[i][k] = true;
                 let vv = self.factory.vote(&self.alpha.byz_votes[k]);
                 let o = w.cores[i].pool.add_vote(vv).1;
+                w.fins[i].extend(o.fins);
                 for e in o.events {
                     w.cores[i].q.push_back(e);
                 }
@@ -558,6 +563,8 @@ impl Sys for ClusterSys {
 /// the decided-window oracle is evaluated on the completed world.
 pub struct LiveSys {
     pub inner: ClusterSys,
+    /// judge completed worlds for agreement (C01) instead of progress (C02)
+    pub safety: bool,
     pub done: std::sync::Mutex<std::collections::HashSet<u64>>,
     pub completions: std::sync::atomic::AtomicUsize,
     pub max_rounds: std::sync::atomic::AtomicUsize,
@@ -572,12 +579,45 @@ pub struct LiveWorld {
 
 impl LiveSys {
     pub fn new(inner: ClusterSys) -> Self {
-        Self { inner, done: Default::default(), completions: Default::default(), max_rounds: Default::default(), shapes: Default::default() }
+        Self { inner, safety: false, done: Default::default(), completions: Default::default(), max_rounds: Default::default(), shapes: Default::default() }
+    }
+
+    /// Agreement on the completed world: observers over everything really signed, plus the real
+    /// nodes' own pools against each other.
+    fn judge_safety(&self, w: &ClusterWorld, out: &mut StepOutcome) {
+        if w.out_of_scope {
+            return;
+        }
+        self.inner.oracle(w, out);
+        let mut shape = String::new();
+        for s in 1..=self.inner.max_slot.max(3) {
+            let fin: Vec<bool> = w.cores.iter().map(|c| c.pool.pool.finalized_slot().inner() >= s).collect();
+            let skip: Vec<bool> = w.cores.iter().map(|c| c.pool.pool.has_skip_cert(Slot::new(s))).collect();
+            shape.push(match (fin.iter().any(|x| *x), skip.iter().any(|x| *x)) { (true, true) => 'X', (true, false) => 'F', (false, true) => 'S', _ => '-' });
+        }
+        self.shapes.lock().unwrap().insert(shape);
+        // finalization logs of the real nodes: no two different blocks per slot
+        let mut per_slot: BTreeMap<u64, BTreeSet<BlockId>> = BTreeMap::new();
+        for fl in &w.fins {
+            for f in fl {
+                for b in f.finalized.iter().chain(f.implicitly_finalized.iter()) {
+                    per_slot.entry(b.0.inner()).or_default().insert(b.clone());
+                }
+            }
+        }
+        for (s, b) in per_slot {
+            if s > 0 && b.len() > 1 {
+                out.push("C01:two-blocks-finalized-in-one-slot".to_string(), format!("after fair completion the real nodes finalized {} different blocks in slot {s}", b.len()));
+            }
+        }
     }
 
     fn judge_completed(&self, w: &ClusterWorld, out: &mut StepOutcome) {
         use std::sync::atomic::Ordering::Relaxed;
         let _ = Relaxed;
+        if self.safety {
+            return self.judge_safety(w, out);
+        }
         if w.out_of_scope {
             return;
         }
@@ -631,11 +671,16 @@ impl Sys for LiveSys {
     }
     fn step(&self, w: &mut LiveWorld, a: u16, check: bool) -> StepOutcome {
         w.hist.push(a);
-        let mut out = self.inner.step(&mut w.w, a, false);
+        let mut out = self.inner.step(&mut w.w, a, self.safety && check);
+        if self.safety && (!check || out.fatal || w.w.out_of_scope) {
+            return out;
+        }
         // panics of node cores are progress failures as well; safety keys stay with C01
-        out.violations.retain(|(k, _)| !k.starts_with("C01:") || k.starts_with("C01:node-panics"));
-        for v in out.violations.iter_mut() {
-            v.0 = v.0.replace("C01:node-panics", "C02:node-panics");
+        if !self.safety {
+            out.violations.retain(|(k, _)| !k.starts_with("C01:") || k.starts_with("C01:node-panics"));
+            for v in out.violations.iter_mut() {
+                v.0 = v.0.replace("C01:node-panics", "C02:node-panics");
+            }
         }
         if !check || out.fatal || w.w.out_of_scope {
             return out;
@@ -661,7 +706,8 @@ impl Sys for LiveSys {
             Ok(rounds) => {
                 self.completions.fetch_add(1, std::sync::atomic::Ordering::Relaxed);
                 self.max_rounds.fetch_max(rounds, std::sync::atomic::Ordering::Relaxed);
-                if rounds > 60 {
+                if rounds > 60 && self.safety {
+                } else if rounds > 60 {
                     out.push("C02:fair-completion-does-not-quiesce".to_string(), "after 60 rounds of delivering everything and firing timeouts the nodes are still producing new messages".to_string());
                 } else {
                     self.judge_completed(&copy, &mut out);
@@ -669,7 +715,21 @@ impl Sys for LiveSys {
             }
             Err(p) => {
                 let msg = p.downcast_ref::<String>().cloned().or_else(|| p.downcast_ref::<&str>().map(|s| s.to_string())).unwrap_or_default();
-                out.push(format!("C02:node-panics-during-completion:{}", crate::engine::panic_class(&msg)), format!("a node core panicked while the pending messages were delivered: {msg}"));
+                if self.safety {
+                    if msg.contains("consensus safety violation") {
+                        let mut o2 = StepOutcome::ok();
+                        self.inner.oracle(&copy, &mut o2);
+                        if o2.violations.is_empty() {
+                            out.push("C01:spurious-safety-assertion-in-correct-node".to_string(), format!("during fair completion a correct node's pool panicked with '{msg:.80}' although the votes really signed do not support any conflict"));
+                        } else {
+                            out.violations.extend(o2.violations);
+                        }
+                    } else {
+                        out.push(format!("C01:node-panics:{}", crate::engine::panic_class(&msg)), format!("node core panicked during fair completion: {msg}"));
+                    }
+                } else {
+                    out.push(format!("C02:node-panics-during-completion:{}", crate::engine::panic_class(&msg)), format!("a node core panicked while the pending messages were delivered: {msg}"));
+                }
             }
         }
         if !out.violations.is_empty() {
